@@ -117,3 +117,11 @@ Example C10_ex_nested :
   | _ => False
   end.
 Proof. vm_compute. reflexivity. Qed.
+
+Example C10_ex_hypotheses : li_item_ok $"one item, 1 > 0" /\ In dash markers /\ In plus markers /\ dash <> plus.
+Proof.
+  split; [|repeat split; [left; reflexivity|right; left; reflexivity|discriminate]].
+  split.
+  - intros x Hx. vm_compute in Hx. vm_compute. intuition.
+  - eexists _, _. split; [reflexivity|]. split; reflexivity.
+Qed.
